@@ -88,7 +88,7 @@ pub fn owns(prop: &str, class: &str) -> bool {
         "C02" => &["C02"],
         "C03" => &["C03", "alloc", "crash", "hung"],
         "C04" => &["C04"],
-        "C18" => &["C18", "deadlock", "livelock", "hung"],
+        "C18" => &["C18", "deadlock", "livelock", "hung", "panic"],
         "C09" => &["C09", "deadlock", "hung"],
         "C10" => &["C10"],
         "C11" => &["C11", "deadlock", "livelock", "hung"],
